@@ -155,6 +155,9 @@ func NewExec(w *World, fnName string) *Exec {
 	sv := V("s!ax", SStr)
 	ln := App("str_len", SInt, sv)
 	ex.axioms = append(ex.axioms, &Term{Op: "forall", Sort: SBool, Bound: []Bound{{"s!ax", SStr}}, Pat: []*Term{ln}, Args: []*Term{Le(IntLit(0), ln)}})
+	// the nil interface has no dynamic type (type identifiers start at 1): a type assertion or type switch case on
+	// it fails
+	ex.axioms = append(ex.axioms, Eq(App("typeof", SInt, V("iface_nil", SIfc)), IntLit(0)))
 	return ex
 }
 
